@@ -1,12 +1,12 @@
 SPECIFICATION Spec
 CONSTANTS
   Stacks <- StacksTags
-  Outcomes <- Out2
-  TagOps <- TagOps4
+  Outcomes <- Out1
+  TagOps <- TagOps3
   Times = {"1", "2"}
-  MaxCalls = 10
+  MaxCalls = 9
   MaxTests = 2
-  MaxRuns = 2
+  MaxRuns = 1
   MaxTagOps = 3
   MaxTimes = 0
   AllowStop = FALSE
